@@ -56,7 +56,7 @@ inductive Val
   | num (ty : NumTy) (n : Int)                        -- int / integral float / complex / Decimal / Fraction
   | enum (cls idx : Nat)                              -- member of a plain `Enum` (identity equality)
   | intEnum (cls : Nat) (v : Int)                     -- member of an `IntEnum` (compares as its int value)
-  | cls (id : Nat) (exc warn : Bool)                  -- a class; proper subclass of Exception / of Warning?
+  | cls (id : Nat) (exc warn : Bool)                  -- a class; subclass of Exception / of Warning?
   | coll (k : CollKind) (items : List Item)           -- tuple / list / frozenset / set / str (items = characters)
   | fdict (f c : Ov) (rest : Nat) (hashable : Bool)   -- FrozenDict: float entry, complex entry, other entries (eq. class)
   | dict (tag : Nat)                                  -- plain dict
